@@ -5,7 +5,7 @@ from . import decls as D
 
 I64 = (1 << 63) - 1
 
-CORPUS_VERSION = 8
+CORPUS_VERSION = 9
 
 AS = ['match', 'table', None, 'auto']  # None = parameter omitted (auto); 'auto' = written explicitly
 IT_G = ['range', 'next_and_back', 'table', 'table_inline', None, 'auto']
@@ -120,6 +120,15 @@ def build(tier, seed):
         gap = d['gapless']
         for (a, f, t, it) in [('table', 'table', 'table', 'next_and_back'), ('match', 'match', 'match', 'table'), (None, None, None, None), ('table', 'match', 'table', 'range' if gap else 'table_inline')]:
             add(d, D.full_config(a, f, t, it, True, split=2), kind='fnlocal')
+    # ... and inside a nested block, an anonymous constant, an inherent method, a trait's default method, a closure; and enums whose
+    # item passes through macro_rules! transcribers (name / visibility / repr as fragments, or the whole item as token trees)
+    for cx in ('block', 'const', 'implfn', 'traitfn', 'closure', 'macro', 'macro_tt'):
+        for r, label, vals in [('i16', 'holes_neg_later', [-10, -9, -5, -4, 3]), ('u32', 'gapless_pos', [5, 6, 7])]:
+            d = D.make_decl(r, label, vals, 'shuf', 'explicit', 'hostile', rnd, vis='' if cx in D.BODY_CONTEXTS else 'pub(crate)')
+            d['context'] = cx
+            gap = d['gapless']
+            for (a, f, t, it) in [('table', 'table', 'table', 'next_and_back'), ('match', 'match', 'match', 'table'), (None, None, None, None), ('table', 'match', 'table', 'range' if gap else 'table_inline')]:
+                add(d, D.full_config(a, f, t, it, True, split=2), kind='context', classes=['context=' + cx])
     # `sorted` configurations: the declaration order is constrained by name and/or value while the other stays free
     for r, label, vals in [('i16', 'holes_neg_later', [-10, -9, -5, -4, 3]), ('u8', 'gapless0', [0, 1, 2, 3]), ('i64', 'holes_mixed', [1, 2, 3, 4, 10, 20, 21, 30, 31, 32, 33, 34, 35]),
                            ('i8', 'gapless_neg', [-3, -2, -1, 0, 1, 2]), ('u32', 'holes_singletons', list(range(0, 20, 2)))]:
